@@ -224,3 +224,64 @@ package shaping
 //@   loop 1 invariant [positive] forall(k, 0, rangeindex+1, glyphs[k].RuneCount >= 1 && glyphs[k].GlyphCount >= 1)
 //@   loop 2 invariant [k-range] i+1 <= k && k <= len(glyphs) && glyphsInCluster == k-i && nextCluster == -1 && g == glyphs[i].ClusterIndex && currentCluster == g
 //@   loop 2 invariant [equal-so-far] forall(m, i, k, glyphs[m].ClusterIndex == g)
+//
+// ---------------------------------------------------------------------------------------------
+// Property C13 (and C02 bookkeeping): reusable wrapper state. Every field the next use reads is reset to the value a
+// fresh object has, or overwritten from the arguments before being read.
+//@ func wrapBuffer.reset C13 C02
+//@   mode bv
+//@   ensures [emptied] len(w.paragraph) == 0 && len(w.alt) == 0 && len(w.altSave) == 0 && len(w.line) == 0 && len(w.best) == 0
+//@   ensures [counters] w.altAdvance == 0 && w.altAdvanceSave == 0 && w.lineUsed == 0 && !w.bestInLine && !w.lineExhausted
+//@   ensures [capacity] cap(w.line) >= 100 && cap(w.alt) >= 10
+//@   modifies unspecified
+//
+//@ func wrapBuffer.startLine C13 C02
+//@   mode bv
+//@   ensures [emptied] len(w.alt) == 0 && len(w.altSave) == 0 && len(w.best) == 0 && !w.bestInLine
+//@   ensures [counters] w.altAdvance == 0 && w.altAdvanceSave == 0
+//@   ensures [keeps-lines] w.lineUsed == old(w.lineUsed) && sameslice(w.line, old(w.line)) && sameslice(w.paragraph, old(w.paragraph))
+//@   modifies w.alt; w.altAdvance; w.altSave; w.altAdvanceSave; w.best; w.bestInLine
+//
+//@ func wrapBuffer.candidateSave C02
+//@   mode bv
+//@   ensures [saved] sameslice(w.altSave, w.alt) && w.altAdvanceSave == w.altAdvance
+//@   modifies w.altSave; w.altAdvanceSave
+//
+//@ func wrapBuffer.candidateRestore C02
+//@   mode bv
+//@   ensures [restored] sameslice(w.alt, old(w.altSave)) && w.altAdvance == old(w.altAdvanceSave)
+//@   modifies w.alt; w.altAdvance
+//
+// sumRunAdv: sum of the Advance fields of runs[lo:hi).
+//@ spec sumRunAdv(runs []Output, lo int, hi int) fixed.Int26_6 = ite(hi <= lo, fixed.Int26_6(0), sumRunAdv(runs, lo, hi-1) + runs[hi-1].Advance)
+//@ func wrapBuffer.candidateAppend C02
+//@   mode bv
+//@   ensures [length] len(w.alt) == old(len(w.alt))+1
+//@   ensures [last] w.alt[len(w.alt)-1].Advance == run.Advance && w.alt[len(w.alt)-1].Runes.Offset == run.Runes.Offset && w.alt[len(w.alt)-1].Runes.Count == run.Runes.Count && sameslice(w.alt[len(w.alt)-1].Glyphs, run.Glyphs)
+//@   ensures [advance] w.altAdvance == old(w.altAdvance)+run.Advance
+//@   modifies unspecified
+//
+//@ func wrapBuffer.finalizeBest C02
+//@   mode bv
+//@   ensures [returns-best] sameslice(result, old(w.best))
+//@   ensures [commits] w.lineUsed == old(w.lineUsed) + ite(old(w.bestInLine), len(old(w.best)), 0)
+//@   modifies w.lineUsed
+//
+//@ func runMapper.mapRun C13 C02
+//@   mode bv
+//@   ensures [valid] r.valid && r.runIdx == runIdx
+//@   ensures [reuses-only-same-run] implies(old(r.valid) && old(r.runIdx) == runIdx, sameslice(r.mapping, old(r.mapping)))
+//@   modifies unspecified
+//
+// newBreaker initialises the segmenter for the paragraph (C06 covers the segmenter itself).
+//@ trusted newBreaker
+//@   ensures [fresh] result != nil && result.totalRunes == len(text) && !result.isUnusedWord && !result.isUnusedGrapheme
+//@   modifies unspecified
+//@ func LineWrapper.Prepare C13
+//@   mode bv
+//@   ensures [mapping-invalidated] !l.mapper.valid
+//@   ensures [position] l.lineStartRune == 0 && l.more
+//@   ensures [config] l.config.TruncateAfterLines == config.TruncateAfterLines && l.config.Direction == config.Direction && l.config.BreakPolicy == config.BreakPolicy && l.config.TextContinues == config.TextContinues
+//@   ensures [truncating] l.truncating == (config.TruncateAfterLines > 0)
+//@   ensures [scratch] len(l.scratch.paragraph) == 0 && len(l.scratch.alt) == 0 && len(l.scratch.best) == 0 && l.scratch.lineUsed == 0 && l.scratch.altAdvance == 0 && len(l.scratch.line) == 0
+//@   modifies unspecified
